@@ -56,3 +56,12 @@ func dumpSQL(p *Program, all bool) {
 		fmt.Println("NOTE", n)
 	}
 }
+
+func dumpStates(p *Program) {
+	sf := newStateFlow(p, "MemoryStore")
+	sf.Run()
+	for _, e := range sf.Events {
+		fmt.Printf("%-26s %-12s %-34s -> %-12s %-22s %s\n", e.Root, e.Kind, e.From.String(), e.ToStr, p.InstrPos(e.Instr), e.Chain)
+	}
+	fmt.Println("events:", len(sf.Events))
+}
